@@ -2334,6 +2334,33 @@ import (
 // re-scheduled from inside its own callback or while its previous callback is still running.
 func TestVerifReplay(t *testing.T) {
 	fail := func(format string, a ...any) { t.Fatalf("REPLAY-VIOLATION "+format, a...) }
+	// removal handles stay valid across a shutdown: cancelling an element (queued, or dropped by a cancelling shutdown)
+	// afterwards neither panics nor removes another element
+	for _, flags := range []ShutdownFlag{0, CancelPendingElements} {
+		func() {
+			q := NewQueue[int]()
+			var els []*QueueElement[int]
+			for i := 0; i < 5; i++ {
+				els = append(els, q.Add(i, time.Now().Add(time.Duration(5-i)*time.Hour)))
+			}
+			q.Shutdown(flags)
+			want := q.Size()
+			defer func() {
+				if r := recover(); r != nil {
+					fail("Queue: Cancel of an element after Shutdown(%d) panics: %v", flags, r)
+				}
+			}()
+			for _, el := range els {
+				el.Cancel()
+				if flags == 0 {
+					want--
+				}
+				if q.Size() != want {
+					fail("Queue: after Shutdown(%d), cancelling one element leaves %d queued elements, expected %d", flags, q.Size(), want)
+				}
+			}
+		}()
+	}
 	// Queue.Poll: an element that a poller is waiting for when the queue is shut down without flags is still delivered,
 	// at its time; with the cancel flag the poller returns empty-handed; a cancelled element is skipped
 	for _, mode := range []string{"plain", "cancel", "ignore", "element-cancelled"} {
